@@ -246,6 +246,7 @@ class ApplicableActionsStep(Unit):
     """one arbitrary iteration of the loop of _get_applicable_actions, via a one-element list: yields the instance iff it is applicable"""
     prop = "C02"
     name = "UPSequentialSimulator._get_applicable_actions (per instance)"
+    bounded_by_construction = True      # two symbolic grounded instances
     doc = "for every grounded instance: it is yielded exactly when _is_applicable holds for it in the given state"
     allowed_raises = (_Usage,)
 
